@@ -118,7 +118,7 @@ def main():
              'kind_free_text': 'Kani 0.68 / CBMC harnesses over crc.rs, mode_ac.rs (included with #[path]) and public kernels'},
         ],
         'checks': checks,
-        'notes': 'Solver-based checking of the real code; see DESIGN.md. Known findings: known_findings.jsonl. The builtin models of std/core used by the symbolic executor are validated against the real std by `python3-vt -m mirsym.selftest` (36 functions, native vs concrete vs symbolic execution). Thorough tier re-decides every 5th unsat verdict with cvc5.',
+        'notes': 'Solver-based checking of the real code; see DESIGN.md. Known findings: known_findings.jsonl. The builtin models of std/core used by the symbolic executor are validated against the real std by `python3-vt -m mirsym.selftest` (38 functions, native vs concrete vs symbolic execution). Thorough tier re-decides every 5th unsat verdict with cvc5.',
         'not_applicable': na,
     }
     json.dump(man, open(os.path.join(ROOT, 'MANIFEST.json'), 'w'), indent=1)
